@@ -761,6 +761,7 @@ func runC07(r *vf.Run) {
 		r.Cover("long_families", c.family)
 	})
 	r.Floor("long sequences evicted something", r.GetCount("evictions_observed_in_long_sequences") > 0)
+	c07FitConsistency(r)
 	// many entries in an ample cache: nothing may be evicted, every key must hit with its own bitmap, counters exact
 	if r.Want("bulk") {
 		r.Guard("bulk", func() {
